@@ -139,11 +139,11 @@ func cnum(c string) int {
 }
 
 // addresses used as message arguments (all in the part of the home LAN that is outside the netfilter subnet)
-func (d *mdriver) addr1(c string) netip.Addr { return d.abs(50 + 10*cnum(c)) }
-func (d *mdriver) addr2(c string) netip.Addr { return d.abs(51 + 10*cnum(c)) }
-func (d *mdriver) huntOther() netip.Addr     { return d.abs(70) }
+func (d *mdriver) addr1(c string) netip.Addr  { return d.abs(50 + 10*cnum(c)) }
+func (d *mdriver) addr2(c string) netip.Addr  { return d.abs(51 + 10*cnum(c)) }
+func (d *mdriver) huntOther() netip.Addr      { return d.abs(70) }
 func (d *mdriver) yOther(c string) netip.Addr { return d.abs(80 + cnum(c)) } // what the other server offers to c
-func (d *mdriver) srv2IP() netip.Addr        { return d.abs(100) }
+func (d *mdriver) srv2IP() netip.Addr         { return d.abs(100) }
 
 func (d *mdriver) serverIP(name string) netip.Addr {
 	switch name {
@@ -612,6 +612,25 @@ func sameForged(a, b []forgedP) bool {
 	return true
 }
 
+// sameForgedButDestination: the frames differ only in where they were sent, and every real frame went to the broadcast
+// address or to the server it names.
+func sameForgedButDestination(got, exp []forgedP) bool {
+	g := append([]forgedP{}, got...)
+	e := append([]forgedP{}, exp...)
+	for i := range g {
+		if g[i].To != "bcast" && g[i].To != g[i].Sid {
+			return false
+		}
+		g[i].To = "*"
+	}
+	for i := range e {
+		e[i].To = "*"
+	}
+	return sameForged(g, e)
+}
+
+var drifts int
+
 func sameReply(a, b []replyP) bool {
 	if len(a) != len(b) {
 		return false
@@ -692,14 +711,28 @@ func (d *mdriver) run(i int, b behaviour, w *ndWriter, sites map[string]int, sit
 		frames := d.conn.Take()
 		d.readLeases()
 		got, stormWhat := d.collect(frames)
-		okStep := true
+		okStep, driftStep := true, false
+		if perr != "" { // no call of the alphabet is documented to fail (Close is idempotent, StartHunt / StopHunt / MinuteTicker return nil)
+			okStep = false
+			emit(k, st, "err", "the call returned an error: "+perr, "", perr, modeBefore)
+		}
 		if !sameReply(got.Reply, st.Exp.Reply) {
 			okStep = false
 			emit(k, st, "reply", fmt.Sprintf("replies differ (call error %q)", perr), st.Exp.Reply, got.Reply, modeBefore)
 		}
 		if !sameForged(got.Forged, st.Exp.Forged) {
-			okStep = false
-			emit(k, st, "forged", "forged frames differ", st.Exp.Forged, got.Forged, modeBefore)
+			if sameForgedButDestination(got.Forged, st.Exp.Forged) {
+				// the statement allows "broadcast or the server named"; the specification records the gateway: DRIFT, the behaviour goes on
+				drifts++
+				driftStep = true
+				if drifts <= 50 {
+					w.write(mismatch{I: i, Step: k, Aspect: "drift-forged-to", What: "forged frame sent to another permitted destination", Act: st.Act,
+						Exp: st.Exp.Forged, Got: got.Forged, Kf: st.Kf, Mode: modeBefore})
+				}
+			} else {
+				okStep = false
+				emit(k, st, "forged", "forged frames differ", st.Exp.Forged, got.Forged, modeBefore)
+			}
 		}
 		if got.Storm != st.Exp.Storm {
 			okStep = false
@@ -743,6 +776,9 @@ func (d *mdriver) run(i int, b behaviour, w *ndWriter, sites map[string]int, sit
 		}
 		if okStep {
 			for _, site := range st.Kf {
+				if driftStep && site == "KF_ForgedMissesServer" {
+					continue // the real frame went where the statement wants it
+				}
 				sites[site]++
 				if _, ok := siteEx[site]; !ok {
 					siteEx[site] = [2]int{i, k}
@@ -825,5 +861,5 @@ func cmdModes(args []string) (map[string]interface{}, error) {
 	}
 	return map[string]interface{}{"behaviours": behaviours, "steps": steps, "differ": badB, "skipped": skipped,
 		"frames": d.frames, "storm_frames": d.stormN, "forged_frames": d.forgedN, "non_dhcp_frames": d.nonDHCP,
-		"sites": sites, "site_examples": siteEx, "net": d.nw.Name}, nil
+		"sites": sites, "site_examples": siteEx, "net": d.nw.Name, "drift_forged_to": drifts}, nil
 }
